@@ -15,6 +15,7 @@ import (
 	"github.com/valinurovam/garagemq/metrics"
 	"github.com/valinurovam/garagemq/qos"
 	"github.com/valinurovam/garagemq/safequeue"
+	"github.com/valinurovam/garagemq/verifhook"
 )
 
 // MetricsState represents current metrics states for queue
@@ -123,6 +124,7 @@ func (queue *Queue) Start() error {
 	go func() {
 		defer queue.wg.Done()
 		for range queue.call {
+			verifhook.Enter("queue.loop")
 			func() {
 				queue.cmrLock.RLock()
 				defer queue.cmrLock.RUnlock()
@@ -138,6 +140,8 @@ func (queue *Queue) Start() error {
 					}
 				}
 			}()
+			verifhook.Exit("queue.loop")
+			verifhook.Taken("queue.call")
 		}
 	}()
 
@@ -145,7 +149,10 @@ func (queue *Queue) Start() error {
 	go func() {
 		defer queue.wg.Done()
 		for range queue.maybeLoadFromStorageCh {
+			verifhook.Enter("queue.loader")
 			queue.mayBeLoadFromStorage()
+			verifhook.Exit("queue.loader")
+			verifhook.Taken("queue.load")
 		}
 	}()
 
@@ -236,6 +243,7 @@ func (queue *Queue) PopQos(qosList []*qos.AmqpQos) *amqp.Message {
 
 	select {
 	case queue.maybeLoadFromStorageCh <- struct{}{}:
+		verifhook.Sent("queue.load")
 	default:
 	}
 
@@ -427,6 +435,7 @@ func (queue *Queue) Requeue(message *amqp.Message) {
 
 	message.DeliveryCount++
 	queue.SafeQueue.PushHead(message)
+	verifhook.At("requeue.afterPushHead")
 	if queue.durable && message.IsPersistent() {
 		// TODO handle error
 		queue.msgPStorage.Update(message, queue.name)
@@ -541,6 +550,7 @@ func (queue *Queue) RemoveConsumer(cTag string) {
 	}
 
 	if cmrCount == 0 && queue.wasConsumed && queue.autoDelete {
+		verifhook.Sent("vhost.autodelete")
 		queue.autoDeleteQueue <- queue.name
 	}
 }
@@ -552,6 +562,7 @@ func (queue *Queue) callConsumers() {
 	}
 	select {
 	case queue.call <- struct{}{}:
+		verifhook.Sent("queue.call")
 	default:
 	}
 }
